@@ -260,7 +260,7 @@ def _accesses(cont):
     fa = FORCE_AS[cont]
     if cont == "raw":
         return [("path", ("path", "file")), ("file", ("file", "file"))]
-    acc = [("path", ("path", None)), ("file", ("file", fa)), ("bytesio", ("bytesio", fa))]
+    acc = [("path", ("path", None)), ("file", ("file", fa)), ("bytesio", ("bytesio", fa)), ("tmpfile", ("tmpfile", fa))]
     if cont in ("wav16", "wav32", "flac", "aiff"):
         acc.append(("bytesio-soundfile", ("bytesio", "soundfile")))
     return acc
@@ -281,6 +281,10 @@ def _read(built, how, dtype, key):
             return read_signal(f, dtype=np_dtype, force_as=force_as, **kw)
     with open(built.path, "rb") as f:
         data = f.read()
+    if mode == "tmpfile":
+        # a read-only binary stream opened from a file descriptor: its .name is an integer, not a path
+        with os.fdopen(os.open(built.path, os.O_RDONLY), "rb") as f:
+            return read_signal(f, dtype=np_dtype, force_as=force_as, **kw)
     return read_signal(io.BytesIO(data), dtype=np_dtype, force_as=force_as, **kw)
 
 
